@@ -307,8 +307,11 @@ def r2(ctx: Ctx) -> None:
     if len(sets) != 1 or sets[0][2] != total:
         ctx.report(fa.where, "area-definition", "Module.area() is not the sum of all per-region areas", lineno=fa.node.lineno)
     ctx.site(fa.where, "per-region area: stored value, 0 for an absent region")
-    tail = [st for st in ca if st[0] == "ret"]
-    if not tail or tail[-1][1] != ("s", ("a", s_, "_area_regions"), ("p", 0)):
+    from framelint.peval import value_expr
+    from framelint.canon import mk_ite, K_NONE
+    regs = ("a", s_, "_area_regions")
+    per_region = value_expr(tuple(st for st in ca if not (st[0] == "if" and st[1] == ("cmp", "is", ("p", 0), K_NONE))))
+    if per_region != mk_ite(("cmp", "in", ("p", 0), regs), ("s", regs, ("p", 0)), k_num(0)):
         ctx.report(fa.where, "area-region-definition", "Module.area(region) does not return the stored area of that region", lineno=fa.node.lineno)
     fs = ctx.func(MODULE, "Module.setup")
     cs = canon_function(fs, m)
